@@ -63,6 +63,18 @@ GENERIC = {'generic:reformat-all-sources (ast.unparse, comments and layout dropp
            'generic:rename-solver-helpers-and-fields': _rename_solver}
 
 
+def _rewrite(name):
+    def f(sources):
+        from selftest import generic
+        return generic.apply(name, sources)
+    return f
+
+
+# package-wide behaviour-preserving AST rewrites (selftest/generic.py): every if/else swapped, else-after-return flattened, ...
+for _n in ('swap-if-else', 'flatten-else', 'not-is-none', 'de-morgan', 'ternary-to-if', 'split-chained', 'explicit-none'):
+    GENERIC[f'generic:rewrite-whole-package[{_n}]'] = _rewrite(_n)
+
+
 def _run_one(variant):
     from checks.run import run_property
     if variant.get('generic'):
